@@ -68,23 +68,24 @@ def mkAll (args : List (Bool × P)) (id : Option String) (cls : Cls := .all) : P
 def mkAny (args : List (Bool × P)) (id : Option String) (cls : Cls := .any) : P :=
   mkAtLeast 1 (orderArgs args) (varOf id) none cls
 
+def setCond (p : P) (cid : String) : P :=
+  match p with
+  | .leaf i b => .leaf i b
+  | .node i b s v ks m => .node i b s v ks { m with cond := ks.findIdx (fun k => k.id == cid) }
+
 /-- `Xor(*props)` = `All(AtLeast(1, props), AtMost(1, props))` -/
 def mkXor (args : List (Bool × P)) (id : Option String) (cls : Cls := .xor) : P :=
   mkAll [(false, mkAtLeast 1 (orderArgs args) none none), (false, mkAtMost 1 (orderArgs args) none)] id cls
 
 /-- `XNor(*props)` = `Any(AtLeast(1, props).negate(), AtMost(1, props).negate())` -/
 def mkXNor (args : List (Bool × P)) (id : Option String) : P :=
-  mkAny [(false, negate (mkAtLeast 1 (orderArgs args) none none)),
-         (false, negate (mkAtMost 1 (orderArgs args) none))] id .xnor
+  -- `cond` marks the half whose children are the propositions as given (`xnor_propositions`)
+  setCond (mkAny [(false, negate (mkAtLeast 1 (orderArgs args) none none)),
+         (false, negate (mkAtMost 1 (orderArgs args) none))] id .xnor) (negate (mkAtMost 1 (orderArgs args) none)).id
 
 /-- `Not(p)`: atoms are wrapped in `All(p)` first -/
 def mkNot (isAtom : Bool) (a : Bool × P) : P :=
   if isAtom then negate (mkAll [a] none) else negate a.2
-
-def setCond (p : P) (cid : String) : P :=
-  match p with
-  | .leaf i b => .leaf i b
-  | .node i b s v ks m => .node i b s v ks { m with cond := ks.findIdx (fun k => k.id == cid) }
 
 /-- `Imply(condition, consequence)` = `Any(condition.negate(), consequence)` -/
 def mkImply (cAtom : Bool) (c d : Bool × P) (id : Option String) : P :=
